@@ -2,6 +2,7 @@
 are finite.  ONE execution per case: a tee on the ctparse_gen that ctparse()
 itself consumes and on _ctparse (pre-latent)."""
 import json
+import zlib
 import math
 
 from ..spec import values as V
@@ -64,6 +65,21 @@ def run_case(case, ctx):
     mon.events["single_result_call"] += 1
     cands = [p for p in post if p is not None]
     pr = []
+    # "the candidates the streaming call yields under identical arguments": a streaming call of our own (the tee above
+    # only sees what ctparse() chose to consume) - for every short text and a third of the others
+    # (not with the random scorer: its generator has moved on, the two calls would not have identical arguments)
+    if case["o"].get("scorer") != "random" and (len(case["t"].strip()) <= 3 or zlib.crc32(key.encode("utf-8")) % 3 == 0):
+        o2, _ = S.opts(case, L)
+        try:
+            own = [(V.full(p.resolution), p.production, p.score, p.subject, list(p.labels) if p.labels is not None else None)
+                   for p in orig_gen(case["t"], ts=ts, **o2) if p is not None]
+        except Exception as e:  # noqa (C01's subject)
+            return {"st": "skip", "sig": "stream-raises:%s (C01)" % type(e).__name__, "key": key, "cls": cls}
+        mon.events["own_stream_compared"] += 1
+        seen_by_call = [snaps[id(p)] for p in cands]
+        if own != seen_by_call:
+            pr.append(("single-call-consumed-another-stream", "the streaming call yields %d candidates under the same arguments, ctparse() consumed %d%s" % (
+                len(own), len(seen_by_call), "" if len(own) != len(seen_by_call) else " (different ones)")))
     for p in cands:
         if not (isinstance(p.score, float) and math.isfinite(p.score)):
             pr.append(("score-not-finite", "candidate %s has score %r" % (V.show(V.val(p.resolution)), p.score)))
@@ -112,5 +128,5 @@ def run_case(case, ctx):
 
 
 def post_check(results, summaries, events, rules, tier):
-    if not events.get("tee_post") or not events.get("tee_pre") or not events.get("single_result_call"):
+    if not events.get("tee_post") or not events.get("tee_pre") or not events.get("single_result_call") or not events.get("own_stream_compared"):
         yield ("inconclusive", "tees observed nothing: %s" % {k: events.get(k) for k in ("tee_post", "tee_pre", "single_result_call")})
